@@ -33,6 +33,22 @@ theorem C19_enclosed_stays_in_tmp (tmp : Path) (entry : Path) (f : List Nat → 
   have := resolveOnto_enclosed (resolveOnto [] tmp) [] (renameLast f entry) 0 rfl hd
   simpa using this
 
+/-- What the producer accepts today (entry names made of normal components only, after the two
+zip-slip fixes) is inside that domain, so every accepted entry lands below the temp dir. -/
+theorem C19_accepted_names_stay_in_tmp (tmp : Path) (entry : Path) (f : List Nat → List Nat)
+    (h : plain entry = true) :
+    ∃ rest, resolve (join tmp (renameLast f entry)) = resolve tmp ++ rest :=
+  C19_enclosed_stays_in_tmp tmp entry f (enclosed_of_plain entry h)
+
+/-- a `.` segment is no longer accepted although it is enclosed: `shared/./x` reaches the same
+destination as another archive's `shared/x` (the defect repaired by the second fix) -/
+theorem C19_dot_segment_same_destination :
+    let tmp : Path := [.root, .normal [116]]
+    resolve (join tmp [.normal [115], .cur, .normal [120]]) = resolve (join tmp [.normal [115], .normal [120]])
+      ∧ enclosed [.normal [115], .cur, .normal [120]] = true
+      ∧ plain [.normal [115], .cur, .normal [120]] = false := by
+  decide
+
 /-- The test is necessary: the entry `../../x.gcno` is not enclosed and its destination under
 `/tmp/t` resolves to `/x_1.gcno` – outside the temp dir (the original code wrote there). -/
 theorem C19_unenclosed_escapes :
